@@ -21,7 +21,7 @@ ID = "C03"
 REAL = ["Matryoshka (calculate_target_power, _calc_target_power, drop_old_proposals, get_target_power)", "_bounds helpers",
         "Proposal eq/hash/ordering", "PowerManagingActor + Timer(1s) drop loop + select loop (actor variant)", "ChannelRegistry"]
 STUB = ["bounds source (FakeBoundsPool)", "power distributor (harness reads Requests)", "client actors"]
-RULE = ("one run = a history of 8-40 operations (proposal by a new/existing actor incl. identical re-sends, time advance up to "
+RULE = ("one run = a history of 8-40 operations (proposal by a new/existing actor incl. identical re-sends and bounds with lower > upper, time advance up to "
         "and past the 60 s max age, drop_old, new system bounds incl. exclusion zones bigger than the inclusion range and "
         "None) on one Matryoshka, or the same through the real actor; values biased onto all interval end points +-1 W; "
         "non-trivial = at least one replacement or expiry or bounds change happened; distinct = abstract digest of the "
